@@ -290,3 +290,58 @@ def all_types(x):
     elif isinstance(x, (tuple, list)):
         for i in x:
             yield from all_types(i)
+
+
+def map_types(x, fn, skip_templates=False):
+    """Rebuild a model node applying fn to every Type node bottom-up (fn: Type -> Type).
+    With skip_templates the instantiation lists (concrete types) are left alone."""
+    if isinstance(x, Type):
+        t = replace(x, targs=tuple(map_types(a, fn) for a in x.targs))
+        return fn(t)
+    if skip_templates and isinstance(x, Template):
+        return x
+    if dataclasses.is_dataclass(x):
+        changes = {}
+        for f in dataclasses.fields(x):
+            v = getattr(x, f.name)
+            nv = map_types(v, fn, skip_templates)
+            if nv is not v and nv != v:
+                changes[f.name] = nv
+        return replace(x, **changes) if changes else x
+    if isinstance(x, tuple):
+        return tuple(map_types(i, fn, skip_templates) for i in x)
+    return x
+
+
+def rename_param(node, old: str, new: str, members=True):
+    """Consistently rename template parameter `old` to `new` inside one templated declaration:
+    its own template header and every type that names the parameter (instantiation lists are
+    concrete types and are left alone).  members=False: do not touch member-level headers."""
+    def fn(t: Type):
+        if not t.ns and not t.targs and t.name == old:
+            return replace(t, name=new)
+        if t.ns and t.ns[0] == old:
+            return replace(t, ns=(new,) + t.ns[1:])
+        return t
+
+    node = map_types(node, fn, skip_templates=True)
+    tp = getattr(node, 'template', None)
+    if tp is not None:
+        node = replace(node, template=Template(tuple(
+            replace(p, name=new) if p.name == old else p for p in tp.params)))
+    return node
+
+
+def identifiers(x, acc=None):
+    """All identifier-like strings in a model."""
+    if acc is None:
+        acc = set()
+    if isinstance(x, str):
+        acc.add(x)
+    elif dataclasses.is_dataclass(x):
+        for f in dataclasses.fields(x):
+            identifiers(getattr(x, f.name), acc)
+    elif isinstance(x, tuple):
+        for i in x:
+            identifiers(i, acc)
+    return acc
